@@ -1,6 +1,7 @@
 import Zrnt.Beacon.Impl.Epoch
 import Proofs.Lemmas.C02Registry
 import Proofs.Lemmas.C02Altair
+import Zrnt.Beacon.Impl.Final
 /-!
 # C02 — slot, epoch and fork-upgrade processing equals the consensus spec
 
@@ -356,5 +357,51 @@ theorem currentTargetStake_eq (cfg : Config) (vals : List Validator) (prevPart c
     (Impl.computeEpochAttesterDataAltair cfg vals prevPart currPart prev (active_indices_of vals prev)
         (active_indices_of vals cur)).eligibleIndices = eligible_indices_of vals prev :=
   Lemmas.targetStakes_altair cfg vals prevPart currPart prev cur
+
+/-! ## Final updates: resets, historical accumulators, participation rotation -/
+
+/-- `resets_eq`: the three resets as the Go code does them — from `epc.NextEpoch.Epoch`, the randao mix read through
+`Epoch.Previous()` — equal `process_eth1_data_reset`, `process_slashings_reset`, `process_randao_mixes_reset`. -/
+theorem resets_eq (cfg : Config) (cur : Nat) (votes : List Eth1Data) (slashings : List Nat) (mixes : List Bytes) :
+    Impl.processEth1DataReset cfg (cur + 1) votes = process_eth1_data_reset_pure cfg cur votes ∧
+    Impl.processSlashingsReset cfg (cur + 1) slashings = process_slashings_reset_pure cfg cur slashings ∧
+    Impl.processRandaoMixesReset cfg (cur + 1) mixes = process_randao_mixes_reset_pure cfg cur mixes := by
+  refine ⟨?_, rfl, ?_⟩
+  · unfold Impl.processEth1DataReset process_eth1_data_reset_pure
+    simp
+  · unfold Impl.processRandaoMixesReset process_randao_mixes_reset_pure Impl.epochPrevious
+    simp only [Nat.add_eq_zero_iff, Nat.succ_ne_self, and_false, ↓reduceIte, Nat.add_sub_cancel]
+    cases mixes[cur % cfg.EPOCHS_PER_HISTORICAL_VECTOR]? <;> rfl
+
+/-- `historical_eq`: `common.UpdateHistoricalRoots` (hash of the two vector roots, "emulating HistoricalBatch") and
+`capella.UpdateHistoricalSummaries`, triggered by `nextEpoch % SlotToEpoch(SLOTS_PER_HISTORICAL_ROOT) == 0`, equal
+`process_historical_roots_update` (`hash_tree_root(HistoricalBatch)`) and `process_historical_summaries_update`. -/
+theorem historical_eq (cfg : Config) (cur : Nat) (block_roots state_roots historical_roots : List Bytes)
+    (summaries : List HistoricalSummary) :
+    Impl.processHistoricalRootsUpdate cfg (cur + 1) block_roots state_roots historical_roots =
+      process_historical_roots_update_pure cfg cur block_roots state_roots historical_roots ∧
+    Impl.processHistoricalSummariesUpdate cfg (cur + 1) block_roots state_roots summaries =
+      process_historical_summaries_update_pure cfg cur block_roots state_roots summaries := by
+  constructor
+  · unfold Impl.processHistoricalRootsUpdate process_historical_roots_update_pure historical_batch_due Impl.slotToEpoch
+      hash_tree_root_historical_batch
+    simp
+  · unfold Impl.processHistoricalSummariesUpdate process_historical_summaries_update_pure historical_batch_due Impl.slotToEpoch
+    simp
+
+/-- `participation_rotation_eq`: altair zero-fills the current participation to ITS OWN length, the spec to the
+registry's length — equal when the participation list has one entry per validator; phase0 rotates the pending
+attestations. -/
+theorem participation_rotation_eq (n : Nat) (current_participation : List Nat) (current_attestations : List PendingAttestation)
+    (hlen : current_participation.length = n) :
+    Impl.processParticipationFlagUpdates current_participation =
+      process_participation_flag_updates_pure n current_participation ∧
+    Impl.processParticipationRecordUpdates current_attestations =
+      process_participation_record_updates_pure current_attestations := by
+  subst hlen
+  exact ⟨rfl, rfl⟩
+
+/-- non-vacuity -/
+example : ∃ (n : Nat) (p : List Nat), p ≠ [] ∧ p.length = n := ⟨2, [0, 7], by simp, rfl⟩
 
 end Zrnt.Proofs.C02
